@@ -11,7 +11,7 @@ TRUSTED_BASE = [
     "nat, positive, N, Z, Decimal.uint stay Coq inductives), runner/driver.ml, ocamlfind ocamlopt; extraction cross-checked per run by vm_compute inside Coq on a sample",
     "for the properties with a regenerated model (evidence key coverage.regenerated_model): the translator tools/rsparse.py + tools/rs2v.py (Rust subset -> Gallina; "
     "table-driven, anything unknown is an error), the primitive mappings of coq/GenPrelude.v and coq/GenTreePrelude.v (std str / String / Vec / Option / Result / Cow primitives, "
-    "serde_json / toml maps as sorted association lists, Token::to_index as the hand-written index_from_str, Pointer::tokens() as a primitive), usize `+` as unbounded addition, "
+    "serde_json / toml maps as sorted association lists, Token::to_index as the hand-written index_from_str (tied to the translated Index::from_str by Proofs/GenEquivIndexStr.v), `p.tokens()` in callers as the list str_tokens (tied to the translated Pointer::tokens / Tokens::next by Proofs/GenEquivPtrOps.v; std's str::split(char) = split_on and Iterator::next on it = head / tail remain primitive)), usize `+` as unbounded addition, "
     "str::split_at's char-boundary panic not modelled; the equivalence lemmas coq/Proofs/GenEquiv*.v are re-checked by coqc on every run; LENS MODE (the `&mut` walks of "
     "src/assign.rs, src/delete.rs and resolve_mut as a reference, coq/Generated/ScanTreeMut.v): the lens primitives of coq/GenTreePrelude.v (lens_root / lens_arr / lens_obj / "
     "lens_index / lens_get_mut / lens_entry / lens_set) as the meaning of `&mut doc`, a Value::Array / Object / Table pattern under a reference, `&mut a[i]`, Map::get_mut, Map::entry "
@@ -284,7 +284,7 @@ PROPERTIES = {
     "C04": {
         "regen": {"groups": ["PtrOps", "Slice", "Buf", "PtrBuild", "Token"]},
         "technique": REGEN_TECHNIQUE,
-        "level_suffix": regen_note("Pointer::count, is_root, front / first, back / last, get(usize), len, is_empty, to_buf, with_trailing_token, with_leading_token, concat and PointerBuf::from_tokens (src/pointer.rs, src/pointer/slice.rs; components() / IntoIterator wrap the Tokens iterator, a primitive of the translation)"),
+        "level_suffix": regen_note("Pointer::count, is_root, front / first, back / last, get(usize), len, is_empty, to_buf, with_trailing_token, with_leading_token, concat and PointerBuf::from_tokens (src/pointer.rs, src/pointer/slice.rs), and the iterators themselves: Pointer::tokens, Tokens::new / next, Components::from / next (src/token.rs, src/component.rs) - drained, they yield exactly the token list the other translated functions use as the primitive str_tokens"),
         "runs": [{"suite": "tokens"}, {"suite": "slice", "filter": lambda c: c.startswith("get "), "nontrivial": lambda c: True}],
         "level_text": "Proved in Coq for all lists of byte strings and all valid pointer texts: the transliterated from_tokens (fold of pushes through Token::new) equals the flat-map spec; "
                       "decoded tokens of from_tokens(L) are L, count = |L|; from_tokens(tokens(p)) = p for valid p; from_tokens is injective (text and list determine each other); "
